@@ -10,6 +10,9 @@ EXTENDS ChainOps, Json, IOUtils
 
 Data == JsonDeserialize(IOEnv.TRACE_FILE)
 Tr == Data.traces
+(* Two levels (harness/parallel.py): the meaning of MPO.identity(scale) for scale # 1 is taken from the code (scale^L * 1; the   *)
+(* docstring does not define it) and is therefore a Strict-only clause; everything else is C03 / C04.                            *)
+Strict == IF "strict" \in DOMAIN Data THEN Data.strict ELSE TRUE
 VARIABLES tid, l, den
 tvars == <<tid, l, den>>
 Rec == Tr[tid][l]
@@ -47,7 +50,10 @@ TIdentity == /\ Rec.ev = "identity"
              \* `scale` multiplies every site tensor (as the code is; the docstring does not define it): scale^L * 1
              /\ LET sc[k \in 0..Rec.L] == IF k = 0 THEN GOne ELSE GMul(sc[k-1], G2(Rec.scale))
                     want == MId(PowN(Rec.d, Rec.L), sc[Rec.L])
-                IN Mat(MpoOf(Rec.T)) = want /\ Put(Rec.r, want)
+                    got == Mat(MpoOf(Rec.T))
+                IN IF Strict \/ G2(Rec.scale) = GOne
+                   THEN got = want /\ Put(Rec.r, want)
+                   ELSE Put(Rec.r, got)            \* pass 2: whatever multiple of the identity the code chose is the operand from here on
 (* the user overwrites one site tensor of a live object in place (here: multiplies it by an integer): by multilinearity the  *)
 (* dense meaning is multiplied as well; every later operation must see the new tensors (nothing may be cached on the object) *)
 TPoke == /\ Rec.ev = "poke" /\ Has(Rec.a)
@@ -149,7 +155,7 @@ Diagnose ==
     ELSE IF Rec.ev \in {"add_mps", "add_mpo"} THEN "dense form of the sum / difference differs from the sum of the dense operands"
     ELSE IF Rec.ev = "mul" THEN "dense form of A @ B differs from Mat(A) . Mat(B)"
     ELSE IF Rec.ev = "apply" THEN "dense form of A|psi> differs from Mat(A) . Vec(psi)"
-    ELSE IF Rec.ev = "identity" THEN "identity MPO is not scale^L * identity"
+    ELSE IF Rec.ev = "identity" THEN (IF G2(Rec.scale) = GOne THEN "identity MPO is not the identity" ELSE "spec: identity MPO is not scale^L * identity")
     ELSE IF Rec.ev \in {"dense_vec", "dense_mat"} THEN "as_vector / as_matrix (dense or sparse) differs from the index-sum contraction"
     ELSE IF Rec.ev = "vdot" THEN "vdot differs from the dense inner product (first argument conjugated)"
     ELSE IF Rec.ev = "oip" THEN "operator_average / operator_inner_product differs from the dense matrix element"
